@@ -43,8 +43,19 @@ def one(case, acc, prefix='real-transport'):
     stream = text if enc else raw
     conv = (lambda s: s) if enc else (lambda s: s.encode('latin-1'))
     L = Link(case['tr'], timeout=10, maxread=case['maxread'], encoding=enc)
+    sib = sib_w = None
     try:
         c = L.child
+        if enc:
+            # another live object with the same encoding that has read half a character: objects do not share
+            # decoding state
+            import os as _os
+            from pexpect import fdpexpect as _fdp
+            sr, sib_w = _os.pipe()
+            sib = _fdp.fdspawn(sr, encoding=enc, timeout=1)
+            _os.write(sib_w, b'caf\xc3')
+            sib.expect_exact(['\x00never', TIMEOUT], timeout=0.01)
+            acc.count('real_sibling_objects')
         cuts = sorted(rng.sample(range(1, len(raw)), min(case['pieces'] - 1, len(raw) - 1))) if len(raw) > 1 else []
         pieces = [raw[a:b] for a, b in zip([0] + cuts, cuts + [len(raw)])]
         # while the peer is still there only probing calls are made (they time out at once and pull whatever has
@@ -125,10 +136,23 @@ def one(case, acc, prefix='real-transport'):
                           'first difference at %d: %r vs %r' % (case['tr'], enc or 'bytes', case['maxread'], case['end'], len(handed),
                                                              len(stream), k, short(handed[k:k + 30]), short(stream[k:k + 30])), case)
             return False
+        if sib is not None:
+            _os.write(sib_w, b'\xa9 au lait\n')
+            sib.expect_exact('\n', timeout=5)
+            if sib.before != 'caf\xe9 au lait':
+                acc.violation(prefix + ':sibling-object-text-altered', 'a second %s object read %r, its peer wrote %r' % (
+                    enc, sib.before, 'caf\xe9 au lait'), case)
+                return False
         acc.nontrivial('real-ledger', case)
         return True
     finally:
         L.cleanup()
+        if sib is not None:
+            for fd in (sib.child_fd, sib_w):
+                try:
+                    _os.close(fd)
+                except OSError:
+                    pass
 
 
 def run(spec, acc, prefix='real-transport'):
